@@ -167,3 +167,31 @@ func extentOnlyDiff(im implLex, m reflex.Result) (key, detail string, ok bool) {
 	}
 	return "", "", false
 }
+
+// positionReference returns the model token stream against which positions are judged: the
+// strict grammar's, or — when the implementation's tokens (kinds, values, count, outcome)
+// are exactly those of the grammar with a *recorded* lexical defect emulated — that one.
+// ok is false when no such model has the implementation's tokens (a tokenisation
+// difference, C03's business).
+func positionReference(text string, im implLex) (m reflex.Result, ok bool) {
+	same := func(m reflex.Result) bool {
+		if len(im.Toks) != len(m.Tokens) || im.Failed != (m.FailAt >= 0) {
+			return false
+		}
+		for i := range im.Toks {
+			a, b := im.Toks[i], m.Tokens[i]
+			if a.Kind != b.Kind || (valueMatters(a.Kind) && a.Value != b.Value) {
+				return false
+			}
+		}
+		return true
+	}
+	m = reflex.Lex(text, reflex.Defects{})
+	if same(m) {
+		return m, true
+	}
+	if d := reflex.Lex(text, reflex.Defects{BlockExtraQuotes: true}); same(d) {
+		return d, true
+	}
+	return m, false
+}
